@@ -595,6 +595,31 @@ def fallback(ctx):
     ctx.verify("", MODES, "ModeStatistics.from_global", setup, post, registry=reg, extras=ex, replayer="c19_student", allowed_raises=())
 
 
+def cover(ctx):
+    """Vacuity guard behind the branch condition of the update obligations (guidance: a cover behind every precondition).  The update
+    statements are verified over the reals under `func0(1e300) < 0`; whether the real (binary64) function ever takes that arm is a
+    reachability question, asked of the real code on large Student-t samples by replayers/c19_cover.py (bounded)."""
+    from pyvc import replay as _rp
+    from pyvc.framework import ObResult
+    import time
+    t0 = time.time()
+    res = _rp.run_replayer("c19_cover", {"obligation": "C19/student.fit_mvstud/cover:dof-estimation-arm-reachable", "input": None}, timeout=600)
+    if res.get("reproduced"):
+        r = ObResult("C19/student.fit_mvstud/cover:dof-estimation-arm-reachable", "violated", "native", time.time() - t0, int(res.get("tried") or 1),
+                     "cover not reached on the real code: " + str(res.get("detail"))[:700], kind="bounded",
+                     witness={"replayer": "c19_cover", "input": res.get("input")})
+        r.replayed = res
+    elif "finite nu returned" in str(res.get("detail")):
+        r = ObResult("C19/student.fit_mvstud/cover:dof-estimation-arm-reachable", "discharged", "native", time.time() - t0, int(res.get("tried") or 1),
+                     str(res.get("detail"))[:300], kind="bounded")
+    else:
+        r = ObResult("C19/student.fit_mvstud/cover:dof-estimation-arm-reachable", "unknown", "native", time.time() - t0, 1,
+                     "cover replayer gave no verdict: " + str(res)[:300], kind="bounded")
+    ctx.add(r)
+    ctx.bounded.append({"clause": "cover: fit_mvstud returns a finite nu for some large Student-t sample (reachability of the ECME update statements in binary64)",
+                        "bound": "5 seeded t samples, d = 1..4, nu = 3..8, n = 20000..60000 (replayers/c19_cover.py)", "cases": int(res.get("tried") or 0)})
+
+
 def run(ctx):
     from . import lean as _lean
     _lean.require(ctx, "Sums.lean", ['prefix_unique', 'sum_cong_rule', 'sum_prefix_nonneg', 'dot_bound', 'dot_nonneg', 'gram_psd'])
@@ -602,6 +627,7 @@ def run(ctx):
     dof_structure(ctx)
     updates(ctx)
     fallback(ctx)
+    cover(ctx)
     ctx.trust("equivariance contracts of the primitives (each a true algebraic fact over the reals): median/cov/var(axis=1)/diag are "
               "coordinate-wise statistics; solve(D S D, D x) = D^-1 solve(S, x); sum_a (D x)_a (D^-1 y)_a = sum_a x_a y_a; weighted "
               "averages with normalised weights commute with translations; all of them commute with coordinate permutations",
@@ -612,6 +638,7 @@ def run(ctx):
               "np.median lies between the coordinate minima and maxima; np.cov is symmetric positive semi-definite",
               "L-SUM rules: each statement is machine-checked in Lean/Mathlib over Finset sums (lemmas/Sums.lean; prefix_unique identifies the prefix function with the finite sum); what stays trusted is the transcription of those statements into the z3 axioms/rules of pyvc/theories/sums.py", "A1: reals; conditioning over scalings 1e-6..1e6 is a "
               "floating-point matter exercised only by the bounded native replayer")
-    ctx.undecided_clauses += ["'recovers the generating parameters of large t-distributed samples' is statistical consistency: not a contract on a call",
+    ctx.undecided_clauses += ["'recovers the generating parameters of large t-distributed samples' is statistical consistency: not a contract on a call "
+                              "(its deterministic precondition - the estimation arm is reachable at all - is the cover obligation; on the pinned tree it is a listed known finding)",
                               "positive definiteness (strict) of the scale matrix under non-degeneracy is not machine-checked (symmetric, Gram form and "
                               "non-negative diagonal are)"]
